@@ -61,6 +61,15 @@ def r1_dialect(prog, rep: Report, csvr: Cls):
               "writer and reader dialects differ: " + "; ".join(diffs),
               scenario="a field containing the delimiter, a quote or leading blanks is split or unquoted differently on load than "
                        "it was written: load(save(r)) != r", line=w.lineno)
+    for side, kws, fn_ in (("writer", wk, wf), ("reader", rk, rf)):
+        q = kws.get("quoting")
+        if q is not None:
+            mode = src(q).split(".")[-1]
+            rep.check("C13.R1", fn_, f"quoting:{side}", mode in ("QUOTE_MINIMAL", "QUOTE_ALL"),
+                      f"{side} quoting {mode} keeps every field a string",
+                      f"{side} uses quoting={src(q)}: QUOTE_NONNUMERIC makes the reader return floats for unquoted fields (ints above "
+                      f"2**53 lose precision before the field type is applied), QUOTE_NONE cannot represent delimiters/quotes",
+                      scenario="a record with the int field 9007199254740993: load(save(r)) gives 9007199254740992", line=q.lineno)
     d = wk.get("delimiter")
     cls_attr = d is not None and isinstance(d, ast.Attribute) and isinstance(d.value, ast.Name) and d.value.id in ("cls", "self")
     rep.check("C13.R1", wf, "delimiter-source", cls_attr, f"delimiter comes from the class attribute {src(d) if d is not None else ''}",
@@ -286,10 +295,12 @@ def r5_record_layer(prog, rep: Report):
                   f"{c.short}._get_item -> {gi.short} -> {nxt.short if nxt else '?'}",
                   f"{c.short}: the record layer is not the first _get_item in the MRO (raw lines would be returned), or no raw reader follows it",
                   scenario="f[i] returns a str instead of a record (base order of the class swapped)")
-    from .c12 import writer_content_ok
+    from .c12 import writer_content_ok, record_save_check
+    from .c11 import _lines_field
     mut = prog.cls("BaseMutableRandomLineAccessFile", FILES_MOD)
     w = prog.method(mut, "_save_from_iter")
     rep.fn(w)
+    record_save_check(prog, rep, "C13.R5", prog.cls("BaseMutableRecordFile", FILES_MOD), w, _lines_field(prog, fam))
     for lp in [n for n in walk_own(w.node) if isinstance(n, ast.For)]:
         for c in ast.walk(lp):
             if isinstance(c, ast.Call) and src(c.func) == "print" and c.args:
